@@ -32,6 +32,22 @@ Theorem zmake_kind_iff : forall z L, wfz z = true ->
 Proof. exact zmake_kind_iff_lemma. Qed.
 Print Assumptions zmake_kind_iff.
 
+From CCTZ Require Import Base Cal CivilImpl PosixImpl FixedImpl ZoneLoad ZoneImpl ZoneZ ZoneHist ZoneRefineDefs ZoneRefine.
+
+(* the implementation-level MakeTime (six-field civil seconds, checked int64)
+   computes exactly zmake of the abstracted zone, clamped *)
+(* civil -> instant: the integer-level answer, clamped to the time_point range *)
+Definition clamp (v : Z) : Z := Z.max min64 (Z.min max64 v).
+Definition kind_of (k : zkind) : ckind := match k with ZU => UNIQUE | ZS => SKIPPED | ZR => REPEATED end.
+
+Theorem c02_make_refines : forall z h cs, zone_ok z = true -> valid_fields cs = true -> int64 (fy cs) ->
+  (z_extended z = false \/ fy cs <= z_last_year z) ->
+  exists h',
+    let c := zmake (abs_zone z) (sec_of cs) in
+    make_time z h cs = OK (mkCL (kind_of (zk c)) (clamp (zpre c)) (clamp (ztrans c)) (clamp (zpost c)), h').
+Proof. exact make_refines_lemma. Qed.
+Print Assumptions c02_make_refines.
+
 Example c02_nonvacuous :
   let z := mkZZ [mkZT 0 3600 1; mkZT 10000000 7200 2; mkZT 20000000 3600 1] 0 0 in
   wfz z = true /\ zk (zmake z 10003700) = ZS /\ zk (zmake z 20005000) = ZR /\ zk (zmake z 5000) = ZU.
